@@ -4,7 +4,7 @@
 From Coq Require Import String.
 From Coq Require Import ZArith List Bool Lia.
 From PV Require Import Base.U64 C13.C13_Model C13.C13_Msg C13.C13_Proofs C13.C13_MsgProofs
-     C13.C13_ChunkSafe C13.C13_ChunkDecode C13.C13_ChunkTotal C13.C13_ParseSafe C13.C13_ParseIndep.
+     C13.C13_ChunkSafe C13.C13_ChunkDecode C13.C13_ChunkTotal C13.C13_ParseSafe C13.C13_ParseIndep C13.C13_Statements.
 Import ListNotations.
 Local Open Scope Z_scope.
 
@@ -326,3 +326,114 @@ Proof.
   apply (IH hb hcap (P_skip_chars hb p3 B_lf false) ((ko, kl, vo, vl) :: kvs) kvs' Hb ltac:(lia)) in H; [exact H|].
   constructor; [|exact Hin]. unfold kv_ok. cbn. lia.
 Qed.
+
+(* ---------------------------------------------------------------- assembly ---- *)
+Definition set_rx (m : msg) (x : bytes) : msg :=
+  mkMsg (m_is_req m) (m_cap m) (m_fill m) x (m_status m) (m_verb m) (m_target m) (m_version m)
+        (m_stmsg m) (m_code m) (m_body m) (m_hoff m) (m_hdrs m) (m_abandon m).
+
+Lemma parse_start_line_rx m x b :
+  parse_start_line (set_rx m x) b = let '(r, c, m1) := parse_start_line m b in (r, c, set_rx m1 x).
+Proof.
+  unfold parse_start_line, set_rx. cbn [m_is_req m_cap m_fill m_rx m_status m_verb m_target m_version m_stmsg m_code m_body m_hoff m_hdrs m_abandon].
+  destruct (m_is_req m).
+  - destruct (P_extract_until b 0 B_sp) as [vs p1].
+    destruct (string_to_verb _ =? 0); [reflexivity|].
+    destruct (P_extract_until b p1 B_sp) as [tg p2]. destruct (P_extract_until b _ B_cr) as [ver p4].
+    destruct (6 <=? snd ver); reflexivity.
+  - destruct (P_extract_until b _ B_sp) as [ver p2].
+    destruct (6 <=? snd ver); [reflexivity|].
+    destruct (P_extract_integer b p2) as [code p3].
+    destruct ((code <=? 0) || (1000 <=? code)); [reflexivity|].
+    destruct (P_extract_until b _ B_cr) as [sm p5]. reflexivity.
+Qed.
+
+Definition head_ok (m : msg) (head : bytes) (ext : Z) : bool :=
+  start_ok (m_is_req m) head &&
+  (let '(r, cur, m1) := parse_start_line m head in
+   (0 <=? r) && (0 <=? cur) && (cur <=? zlen head) &&
+   (let ver := m_version m1 in (0 <=? fst ver) && (0 <=? snd ver) && (fst ver + snd ver <=? zlen head)) &&
+   loop_ok (S (Z.to_nat (u16 (m_cap m - cur) / 8 + 1))) (zdrop cur head) (u16 (m_cap m - cur)) ext 0 0) &&
+  match find_term head with Some _ => true | None => false end.
+
+Lemma kv_ok_in_range hb e : kv_ok hb e -> kv_in_range hb e = true.
+Proof. intros (_ & _ & A & _ & _ & B). unfold kv_in_range. apply andb_true_intro. split; apply Z.leb_le; assumption. Qed.
+Lemma kv_ok_app hb tail e : kv_ok hb e -> kv_ok (hb ++ tail) e.
+Proof. intros (A & B & C & D & E & F). unfold kv_ok. rewrite zlen_app. pose proof (zlen_nonneg tail). lia. Qed.
+
+(* parse_fragmentation_independent: when every scan of the parser ends inside `head`
+   (head_ok, executable; it holds for every well-formed head with room for its index), the
+   observable parse result on head ++ tail is the one on head alone, for EVERY tail of at most
+   `ext` bytes: start line fields, header/body boundary, sorted header index, m_abandon. *)
+Lemma parse_tail_independent_proof : forall (m : msg) (head tail : bytes) (ext : Z),
+  head_ok m head ext = true -> zlen tail <= ext ->
+  zlen (head ++ tail) < m_cap m -> m_cap m < 65536 ->
+  parse_obs (parse_whole m (head ++ tail)) = parse_obs (parse_whole m head).
+Proof.
+  intros m head tail ext Hok Ht Hcap Hc64. pose proof (zlen_nonneg tail) as Ht0. pose proof (zlen_nonneg head) as Hh0.
+  rewrite zlen_app in Hcap.
+  unfold head_ok in Hok. apply andb_prop in Hok. destruct Hok as [Hok Hterm].
+  apply andb_prop in Hok. destruct Hok as [Hstart Hok].
+  destruct (find_term head) as [k|] eqn:Hk; [|discriminate].
+  unfold parse_whole. rewrite zlen_app.
+  destruct (Z.leb_spec (m_cap m) (zlen head + zlen tail)); [lia|].
+  destruct (Z.leb_spec (m_cap m) (zlen head)); [lia|].
+  rewrite (find_term_app head tail k Hk), Hk.
+  change (mkMsg (m_is_req m) (m_cap m) (m_fill m) (head ++ tail) (m_status m) (m_verb m) (m_target m) (m_version m)
+                (m_stmsg m) (m_code m) (m_body m) (m_hoff m) (m_hdrs m) (m_abandon m)) with (set_rx m (head ++ tail)).
+  change (mkMsg (m_is_req m) (m_cap m) (m_fill m) head (m_status m) (m_verb m) (m_target m) (m_version m)
+                (m_stmsg m) (m_code m) (m_body m) (m_hoff m) (m_hdrs m) (m_abandon m)) with (set_rx m head).
+  rewrite !parse_start_line_rx. rewrite (start_tail m head tail Hstart ltac:(lia)).
+  destruct (parse_start_line m head) as [[r cur] m1].
+  apply andb_prop in Hok. destruct Hok as [Hok Hloop]. apply andb_prop in Hok. destruct Hok as [Hok Hver].
+  apply andb_prop in Hok. destruct Hok as [Hok Hcur2]. apply andb_prop in Hok. destruct Hok as [Hr Hcur1].
+  apply Z.leb_le in Hr. apply Z.leb_le in Hcur1. apply Z.leb_le in Hcur2.
+  apply andb_prop in Hver. destruct Hver as [Hver Hv3]. apply andb_prop in Hver. destruct Hver as [Hv1 Hv2].
+  apply Z.leb_le in Hv1. apply Z.leb_le in Hv2. apply Z.leb_le in Hv3.
+  cbn [set_rx m_is_req m_cap m_fill m_rx m_status m_verb m_target m_version m_stmsg m_code m_body m_hoff m_hdrs m_abandon].
+  destruct (Z.ltb_spec r 0); [lia|].
+  rewrite zdrop_app_le by lia.
+  set (hbA := zdrop cur head) in *. set (hcap := u16 (m_cap m - cur)) in *.
+  assert (HlA : zlen hbA = zlen head - cur) by (unfold hbA; apply zlen_zdrop; lia).
+  (* the loop needs a non-empty buffer *)
+  assert (Hne : 0 < zlen hbA).
+  { cbn [loop_ok] in Hloop. apply andb_prop in Hloop. destruct Hloop as [Hl _]. apply andb_prop in Hl. destruct Hl as [_ Hl].
+    apply Z.ltb_lt in Hl. exact Hl. }
+  unfold h_reset_parse. rewrite zlen_app.
+  destruct (Z.eqb_spec (zlen hbA + zlen tail) 0); [lia|]. destruct (Z.eqb_spec (zlen hbA) 0); [lia|].
+  rewrite (loop_tail _ hbA tail hcap ext 0 [] Hloop Ht).
+  destruct (parse_loop (S (Z.to_nat (hcap / 8 + 1))) hbA hcap 0 []) as [[kvs|]|] eqn:EL; [| reflexivity | reflexivity].
+  assert (Hkv : Forall (kv_ok hbA) kvs).
+  { apply (parse_loop_kv_ok _ hbA hcap 0 [] kvs ltac:(lia) ltac:(lia) ltac:(constructor) EL). }
+  assert (Hr1 : forallb (kv_in_range hbA) kvs = true).
+  { apply forallb_forall. intros e He. apply kv_ok_in_range. rewrite Forall_forall in Hkv. apply Hkv. exact He. }
+  assert (Hr2 : forallb (kv_in_range (hbA ++ tail)) kvs = true).
+  { apply forallb_forall. intros e He. apply kv_ok_in_range. apply kv_ok_app. rewrite Forall_forall in Hkv. apply Hkv. exact He. }
+  rewrite Hr1, Hr2.
+  assert (Hsort : insertion_sort (h_less (hbA ++ tail)) kvs = insertion_sort (h_less hbA) kvs).
+  { apply insertion_sort_ext. intros x y Hx Hy. unfold h_less. rewrite Forall_forall in Hkv.
+    rewrite !kv_key_tail by (apply Hkv; assumption). reflexivity. }
+  rewrite Hsort. set (sorted := insertion_sort (h_less hbA) kvs).
+  assert (Hks : Forall (kv_ok hbA) sorted).
+  { rewrite Forall_forall in *. intros e He. apply Hkv. apply (insertion_sort_in _ _ _ He). }
+  rewrite !(h_get_tail hbA tail hcap sorted) by exact Hks.
+  unfold slice_checked. rewrite zlen_app.
+  destruct (Z.ltb_spec (zlen head + zlen tail) (fst (m_version m1) + snd (m_version m1))); [lia|].
+  destruct (Z.ltb_spec (zlen head) (fst (m_version m1) + snd (m_version m1))); [lia|].
+  rewrite slice_app by lia. reflexivity.
+Qed.
+
+(* two different tails (= two fragmentations that delivered different amounts behind the head) *)
+Lemma parse_two_tails_proof : forall (m : msg) (head tail1 tail2 : bytes) (ext : Z),
+  head_ok m head ext = true -> zlen tail1 <= ext -> zlen tail2 <= ext ->
+  zlen (head ++ tail1) < m_cap m -> zlen (head ++ tail2) < m_cap m -> m_cap m < 65536 ->
+  parse_obs (parse_whole m (head ++ tail1)) = parse_obs (parse_whole m (head ++ tail2)).
+Proof.
+  intros m head t1 t2 ext Hok H1 H2 Hc1 Hc2 Hc.
+  rewrite (parse_tail_independent_proof m head t1 ext Hok H1 Hc1 Hc).
+  rewrite (parse_tail_independent_proof m head t2 ext Hok H2 Hc2 Hc). reflexivity.
+Qed.
+
+(* the hypothesis is met by an ordinary request head, with room for 4096 more bytes *)
+Example head_ok_example : head_ok (msg_init true 16384 170 0) ex_head 4096 = true.
+Proof. vm_compute. reflexivity. Qed.
